@@ -19,29 +19,31 @@ from datetime import datetime, timedelta
 from vf.core import Ctx, cfg_text, Machinery
 
 _VECS = {}
+PROVIDERS = {1: "zoneinfo", 2: "pytz"}
 
 
 class Fun:
-    def __init__(self, name, inputs, call, alpha, mutate, setup=None):
-        self.name, self.inputs, self.call, self.alpha, self.mutate, self.setup = name, inputs, call, alpha, mutate, setup
+    def __init__(self, name, inputs, call, alpha, mutate, setup=None, modes=(1,)):
+        self.name, self.inputs, self.call, self.alpha, self.mutate, self.setup, self.modes = name, inputs, call, alpha, mutate, setup, tuple(modes)
 
 
-def behaviours(ctx: Ctx, max_calls=3, max_ops=5):
-    key = (max_calls, max_ops)
+def behaviours(ctx: Ctx, modes=(1,), max_calls=3, max_ops=5):
+    key = (tuple(modes), max_calls, max_ops)
     if key in _VECS:
         return _VECS[key]
-    consts = {"Funs": {"f"}, "Inputs": {1, 2}, "MaxCalls": max_calls, "MaxOps": max_ops}
-    r = ctx.mc("MC_Fresh", cfg_text(spec="Spec", constants={**consts, "Memo": False},
+    consts = {"Funs": {"f"}, "Inputs": {1, 2} if len(modes) == 1 else {1}, "Modes": set(modes), "MaxCalls": max_calls, "MaxOps": max_ops}
+    r = ctx.mc("MC_Fresh", cfg_text(spec="Spec", constants={**consts, "Memo": "none"},
                                     invariants=["Independence", "FreshIdentity", "Vec"]), workers=2, timeout=600)
     vecs = r.prints
     if len(vecs) < 20:
         raise Machinery(f"MC_Fresh: too few behaviours {len(vecs)}")
-    g = ctx.mc("MC_Fresh", cfg_text(spec="Spec", constants={**consts, "Memo": True}, invariants=["Independence"]),
-               expect_ok=False, count=False, workers=1, timeout=600)
-    if g.ok or "Independence" not in str(g.violated):
-        raise Machinery("vacuity guard: TLC did not refute Independence on the shared-object (Memo) variant")
-    ctx.notes.append(f"FRESH: {len(vecs)} behaviours of spec/Fresh.tla (<= {max_calls} calls, {max_ops} operations); "
-                     "Independence refuted on the Memo variant (guard)")
+    for memo in ("shared", "stale") if len(modes) > 1 else ("shared",):
+        g = ctx.mc("MC_Fresh", cfg_text(spec="Spec", constants={**consts, "Memo": memo}, invariants=["Independence"]),
+                   expect_ok=False, count=False, workers=1, timeout=600)
+        if g.ok or "Independence" not in str(g.violated):
+            raise Machinery(f"vacuity guard: TLC did not refute Independence on the {memo}-memo variant")
+    ctx.notes.append(f"FRESH: {len(vecs)} behaviours of spec/Fresh.tla (modes {sorted(modes)}, <= {max_calls} calls, {max_ops} operations); "
+                     "Independence refuted on the memo variants (guard)")
     _VECS[key] = vecs
     return vecs
 
@@ -50,51 +52,100 @@ def norm(x):
     return json.loads(json.dumps(x, sort_keys=True, default=repr))
 
 
-def replay(ctx: Ctx, pid: str, fun: Fun, vecs, passes=1):
-    """Replays every behaviour on fun.  The reference views are taken from the first call per input in this
-    process (pristine) and from the first mutation (mutated); every later observation must equal them."""
-    ref = {}
+def reference(pid):
+    """pristine and mutated views of every (function, input, mode), computed in a fresh interpreter per mode --
+    a process with no history at all"""
+    import os
+    import subprocess
+    import sys
+    from vf.core import VERIF
+    out = {}
+    for m, prov in PROVIDERS.items():
+        p = subprocess.run([sys.executable, "-c", f"from vf import fresh; fresh._print_reference({pid!r}, {m})"], capture_output=True, text=True,
+                           cwd=str(VERIF), env=dict(os.environ), timeout=900)
+        if p.returncode != 0:
+            raise Machinery(f"FRESH reference subprocess failed: {p.stderr[-800:]}")
+        for name, d in json.loads(p.stdout.strip().splitlines()[-1]).items():
+            for x, views in d.items():
+                out[(name, int(x), m)] = views
+    return out
+
+
+def _print_reference(pid, m):
+    from icalendar.timezone import tzp
+    tzp.use(PROVIDERS[m])
+    res = {}
+    for fun in registry().get(pid, []):
+        if m not in fun.modes:
+            continue
+        res[fun.name] = {}
+        for x, inp in enumerate(fun.inputs, 1):
+            st = fun.setup() if fun.setup else None
+            o = fun.call(inp) if st is None else fun.call(inp, st)
+            pristine = norm(fun.alpha(o))
+            fun.mutate(o)
+            res[fun.name][x] = {"pristine": pristine, "mutated": norm(fun.alpha(o))}
+    print(json.dumps(res))
+
+
+def replay(ctx: Ctx, pid: str, fun: Fun, vecs, ref, passes=1):
+    """Replays every behaviour on fun; after every operation every live handle is projected and compared with the
+    history-free reference view of its (input, mode)."""
+    from icalendar.timezone import tzp
     nfail = 0
-    for p in range(passes):
-        for v in vecs:
-            handles, mutated = {}, set()
-            state = fun.setup() if fun.setup else None
-            for step, op in enumerate(v["hist"]):
-                x, h = op["x"], op["h"]
-                inp = fun.inputs[x - 1]
-                try:
-                    if op["op"] == "call":
-                        handles[h] = (x, fun.call(inp) if state is None else fun.call(inp, state))
-                        if ("pristine", x) not in ref:
-                            ref[("pristine", x)] = norm(fun.alpha(handles[h][1]))
-                    else:
-                        fun.mutate(handles[h][1])
-                        mutated.add(h)
-                        if ("mutated", x) not in ref:
-                            ref[("mutated", x)] = norm(fun.alpha(handles[h][1]))
-                            if ref[("mutated", x)] == ref[("pristine", x)]:
-                                raise Machinery(f"FRESH {fun.name}: the mutation is not visible in the projection")
-                    ctx.evaluations += 1
-                    for hh, (xx, o) in handles.items():
-                        want = ref.get(("mutated" if hh in mutated else "pristine", xx))
-                        got = norm(fun.alpha(o))
-                        if got != want:
-                            nfail += 1
-                            if nfail <= 5:
-                                ctx.fail(f"P:{pid}:fresh-result-{fun.name}",
-                                         {"fun": fun.name, "hist": v["hist"][:step + 1], "handle": hh, "input": repr(fun.inputs[xx - 1])[:200],
-                                          "must_see": "mutated" if hh in mutated else "pristine"}, got, want)
-                            raise StopIteration
-                except StopIteration:
-                    break
-                except Machinery:
-                    raise
-                except Exception as e:   # noqa: BLE001
-                    ctx.fail(f"P:{pid}:fresh-result-{fun.name}", {"fun": fun.name, "hist": v["hist"][:step + 1], "exc": type(e).__name__},
-                             str(e)[:200], None)
-                    break
-            ctx.case(("fresh", fun.name, json.dumps(v["hist"])), True)
+    for x in range(1, len(fun.inputs) + 1):
+        for m in fun.modes:
+            r = ref.get((fun.name, x, m))
+            if r is None or r["pristine"] == r["mutated"]:
+                raise Machinery(f"FRESH {fun.name}: no reference, or the mutation is not visible in the projection")
+    try:
+        for p in range(passes):
+            for v in vecs:
+                handles, mutated = {}, set()
+                state = fun.setup() if fun.setup else None
+                tzp.use(PROVIDERS[fun.modes[0]])
+                for step, op in enumerate(v["hist"]):
+                    x, h = op["x"], op["h"]
+                    try:
+                        if op["op"] == "switch":
+                            tzp.use(PROVIDERS[op["m"]])
+                            continue
+                        if op["op"] == "call":
+                            inp = fun.inputs[x - 1]
+                            handles[h] = (x, op["m"], fun.call(inp) if state is None else fun.call(inp, state))
+                        else:
+                            fun.mutate(handles[h][2])
+                            mutated.add(h)
+                        ctx.evaluations += 1
+                        for hh, (xx, mm, o) in handles.items():
+                            want = ref[(fun.name, xx, mm)]["mutated" if hh in mutated else "pristine"]
+                            got = norm(fun.alpha(o))
+                            if got != want:
+                                nfail += 1
+                                if nfail <= 5:
+                                    ctx.fail(f"P:{pid}:fresh-result-{fun.name}",
+                                             {"fun": fun.name, "hist": v["hist"][:step + 1], "handle": hh, "input": repr(fun.inputs[xx - 1])[:200],
+                                              "provider": PROVIDERS[mm], "must_see": "mutated" if hh in mutated else "pristine"}, _diff(got, want), None)
+                                raise StopIteration
+                    except StopIteration:
+                        break
+                    except Machinery:
+                        raise
+                    except Exception as e:   # noqa: BLE001
+                        nfail += 1
+                        ctx.fail(f"P:{pid}:fresh-result-{fun.name}", {"fun": fun.name, "hist": v["hist"][:step + 1], "exc": type(e).__name__},
+                                 str(e)[:200], None)
+                        break
+                ctx.case(("fresh", fun.name, json.dumps(v["hist"])), True)
+    finally:
+        tzp.use_default()
     return nfail
+
+
+def _diff(got, want):
+    a, b = json.dumps(got), json.dumps(want)
+    i = next((k for k, (x, y) in enumerate(zip(a, b)) if x != y), min(len(a), len(b)))
+    return {"at": i, "got": a[max(0, i - 60):i + 120], "want": b[max(0, i - 60):i + 120]}
 
 
 # ----------------------------------------------------------------------------------------------------------------
@@ -182,8 +233,8 @@ def registry():
         Fun("parsed RRULE", ["BEGIN:VEVENT\r\nRRULE:FREQ=WEEKLY;COUNT=4;BYDAY=MO\r\nEND:VEVENT\r\n", "BEGIN:VTODO\r\nRRULE:FREQ=DAILY;BYHOUR=1,2;BYSETPOS=-1\r\nEND:VTODO\r\n"],
             lambda x: Component.from_ical(x)["RRULE"], lambda r: [[k, [repr(i) for i in v]] for k, v in r.items()] + [_alpha_params(r.params)], mutate_recur),
     ]
-    tree = Fun("Component.from_ical", [cal_a, cal_b], parsed, lambda c: pc.full_alpha(c) if hasattr(pc, "full_alpha") else c.to_ical().decode(), mutate_tree)
-    F["C01"] = [tree]
+    tree = Fun("Component.from_ical", [cal_a, cal_b], parsed, lambda c: pc.full_alpha(c), mutate_tree)
+    F["C01"] = [tree, Fun("Component.from_ical (providers)", [cal_b], parsed, lambda c: pc.full_alpha(c), mutate_tree, modes=(1, 2))]
     cal_lc = ("begin:vcalendar\nversion:2.0\nbegin:vevent\nuid:a\ndtstart;tzid=Europe/Berlin:20240701T100000\nsummary;language=en:One\n"
               "rrule:FREQ=WEEKLY;BYDAY=MO,TU\ncategories:x,\n\ty\nend:vevent\nend:vcalendar\n")
     F["C09"] = [Fun("Component.from_ical (lower-case names, LF, tab fold)", [cal_lc, cal_b.replace("\r\n", "\n")], parsed,
@@ -202,16 +253,28 @@ def registry():
             lambda r: r.add("X/Added"), setup=dict),
         Fun("Calendar.get_missing_tzids", [cal_a, cal_b], lambda x, st: st.setdefault(x, parsed(x)).get_missing_tzids(), lambda r: sorted(r),
             lambda r: r.add("X/Added"), setup=dict),
+        Fun("add_missing_timezones (providers)", [cal_b],
+            lambda x: (lambda c: (c.add_missing_timezones(first_date=datetime(2023, 1, 1).date(), last_date=datetime(2025, 1, 1).date()), c)[1])(parsed(x)),
+            lambda c: [sorted(c.get_missing_tzids()), [str(t.get("TZID")) for t in c.timezones], len(c.to_ical())],
+            lambda c: c.add_component(Component.from_ical("BEGIN:VEVENT\r\nDTSTART;TZID=Asia/Kolkata:20240101T100000\r\nEND:VEVENT\r\n")), modes=(1, 2)),
         Fun("Calendar.timezones", [cal_a, cal_b], lambda x, st: st.setdefault(x, parsed(x)).timezones, lambda r: [str(t.get("TZID")) for t in r],
             lambda r: r.append(Timezone()), setup=dict),
     ]
     F["C13"] = [
         Fun("Timezone.from_tzid", ["Europe/Berlin", "Asia/Kolkata"], lambda x: Timezone.from_tzid(x, first_date=datetime(2020, 1, 1).date(), last_date=datetime(2026, 1, 1).date()),
             lambda c: c.to_ical().decode(), lambda c: (c.add("x-added", "1"), c.subcomponents.pop() if c.subcomponents else None)),
+        Fun("Timezone.from_tzid (providers)", ["America/New_York"],
+            lambda x: Timezone.from_tzid(x, first_date=datetime(2020, 1, 1).date(), last_date=datetime(2026, 1, 1).date()),
+            lambda c: c.to_ical().decode(), lambda c: (c.add("x-added", "1"), c.subcomponents.pop() if c.subcomponents else None), modes=(1, 2)),
+        Fun("Timezone.to_tz (providers)", ["America/New_York"],
+            lambda x: [Timezone.from_tzid(x, first_date=datetime(2020, 1, 1).date(), last_date=datetime(2026, 1, 1).date()).to_tz()],
+            lambda r: [type(t).__module__.split(".")[0] for t in r] + [repr(datetime(2024, 7, 1, 12, tzinfo=t).utcoffset()) for t in r if t is not None],
+            lambda r: r.append(None), modes=(1, 2)),
     ]
     F["C14"] = [
         Fun("component.alarms.times", [cal_a, cal_b], lambda x, st: st.setdefault(x, alarms_of(x)).alarms.times, a_times, lambda r: r.append(r[0]) if r else r.append(None),
             setup=dict),
+        Fun("alarms.times (providers)", [cal_a], lambda x: alarms_of(x).alarms.times, a_times, lambda r: r.append(r[0]), modes=(1, 2)),
     ]
     F["C15"] = [
         Fun("component.alarms.active", [cal_a, cal_b], lambda x, st: st.setdefault(x, alarms_of(x)).alarms.active, a_times, lambda r: r.append(r[0]) if r else r.append(None),
@@ -227,6 +290,7 @@ def registry():
     F["C20"] = [
         Fun("Component.copy", [cal_a, cal_b], lambda x, st: st.setdefault(x, parsed(x)).copy(), lambda c: pc.full_alpha(c), lambda c: c.add("x-added", "1"), setup=dict),
         Fun("copy.deepcopy", [cal_a, cal_b], lambda x, st: copy.deepcopy(st.setdefault(x, parsed(x))), lambda c: pc.full_alpha(c), mutate_tree, setup=dict),
+        Fun("copy.deepcopy (providers)", [cal_b], lambda x: copy.deepcopy(parsed(x)), lambda c: pc.full_alpha(c), mutate_tree, modes=(1, 2)),
         Fun("walk", [cal_a, cal_b], lambda x, st: st.setdefault(x, parsed(x)).walk(), lambda r: [c.name for c in r], lambda r: r.append(Event()), setup=dict),
         Fun("events/todos", [cal_a, cal_b], lambda x, st: (lambda c: c.events + c.todos)(st.setdefault(x, parsed(x))), lambda r: [c.name for c in r],
             lambda r: r.append(Event()), setup=dict),
@@ -248,12 +312,12 @@ def step(ctx: Ctx, pid: str, passes=None):
     funs = registry().get(pid, [])
     if not funs:
         raise Machinery(f"FRESH: no functions registered for {pid}")
-    vecs = behaviours(ctx)
+    ref = reference(pid)
     n = 0
     for f in funs:
-        n += replay(ctx, pid, f, vecs, passes or (1 if ctx.quick else 3))
+        n += replay(ctx, pid, f, behaviours(ctx, f.modes), ref, passes or (1 if ctx.quick else 3))
     ctx.assumptions.append(
-        "FRESH: a caller may mutate the object a call handed to it; later calls and other handles must not see that (spec/Fresh.tla); "
-        "the reference views are the first pristine / first mutated projection obtained in the process")
-    ctx.notes.append(f"FRESH: functions replayed for {pid}: {[f.name for f in funs]}")
+        "FRESH: a caller may mutate the object a call handed to it; later calls and other handles must not see that, nor results computed "
+        "under the other provider (spec/Fresh.tla); the reference views are computed in a fresh interpreter per provider")
+    ctx.notes.append(f"FRESH: functions replayed for {pid}: {[(f.name, f.modes) for f in funs]}")
     return n
